@@ -3,6 +3,7 @@ package cal
 import (
 	"encoding/json"
 	"errors"
+	"fmt"
 	"time"
 
 	"cloud.google.com/go/civil"
@@ -121,6 +122,12 @@ func (dt *DateTime) UnmarshalJSON(data []byte) error {
 	dtn, err := civil.ParseDateTime(s)
 	if err != nil {
 		return err
+	}
+	// Only accept the form we publish and write ourselves (see JSONSchema):
+	// anything else, like fractional seconds or a lower-case separator, would
+	// be silently rewritten and go unnoticed by the envelope's digest.
+	if dtn.String() != s {
+		return fmt.Errorf("invalid date time format '%s'", s)
 	}
 	*dt = DateTime{dtn}
 	return nil
